@@ -727,6 +727,40 @@ def rule_scan_window(ctx):
                           "cells that this call did not write (leftovers of earlier calls on this matcher) take part in the maximum" % bad)
         else:
             ctx.ok(site(fn, bi), "the final scan starts at an input-dependent column (%s)" % "; ".join(show(s_)[:60] for s_ in starts))
+    if n == 0:
+        # no `iter().max..` chain: a hand-written search over a window of current_row (`split_at(off)`, `&row[off..]` bound to
+        # a name and indexed / looped over).  The windows themselves are judged.
+        for bi, t in fn.calls(lambda t: callee(t).rsplit("::", 1)[-1] in ("split_at", "split_at_mut", "split_at_checked", "index", "get", "iter")):
+            a0 = fn.expr_of_operand(t["args"][0]) if t.get("args") else None
+            if a0 is None or "current_row" not in show(a0):
+                continue
+            seg = callee(t).rsplit("::", 1)[-1]
+            starts = []
+            if seg.startswith("split_at") and len(t["args"]) > 1:
+                starts.append(fn.expr_of_operand(t["args"][1]))
+            elif seg in ("index", "get") and len(t["args"]) > 1:
+                rng = strip_casts(fn.expr_of_operand(t["args"][1]))
+                if rng[0] == "agg" and "Range" in str(rng[1]):
+                    starts.append(rng[2].get("start", ("const", 0, None, "usize")))
+                else:
+                    continue          # a single cell
+            elif seg == "iter":
+                inner = strip_casts(a0)
+                while inner[0] in ("ref", "deref"):
+                    inner = strip_casts(inner[1])
+                if any(x[0] == "call" and not str(x[1]).endswith("Deref>::deref") and not str(x[1]).endswith("DerefMut>::deref_mut") and not str(x[1]).endswith("MatrixSlab::alloc") for x in walk(inner)):
+                    continue          # iterating a window made by one of the calls above
+                starts.append(("const", 0, None, "usize"))
+            n += 1
+            key = "%s|scan-window|%d" % (fn.path, n)
+            bad = None
+            for s_ in starts:
+                bad = bad or _const_reaching(facts, fn, s_, bi)
+            if bad:
+                ctx.violation(key, site(fn, bi), "a window of `current_row` read after the matrix is populated can start at %s, while score_row writes the last row from a column that depends on the "
+                              "row offsets: cells that this call did not write take part in the result" % bad)
+            else:
+                ctx.ok(site(fn, bi), "window of current_row starts at an input-dependent column (%s)" % "; ".join(show(s_)[:60] for s_ in starts))
     ctx.floor("final scans over current_row in fuzzy_match_optimal", n, 1)
 
 
